@@ -1,14 +1,16 @@
 (* Bridge between a kernel regenerated from the source under test on every run (Gen/KKafka.v) and the kernel the
    hand-written model uses.  An edit to the code that changes the expression changes the generated file, and these
-   proofs no longer check. *)
+   proofs no longer check.  The proofs do not depend on how the source spells the computation (locals, nesting of the
+   conditions, max/min instead of a conditional): they split on the conditions and decide by linear arithmetic. *)
 From Coq Require Import ZArith Bool Lia Arith List.
+From SZ Require Import Base.BridgeTac.
 From SZ Require Import Gen.KKafka.
 From SZ Require Import Ext.KafkaBatched.
 Import ListNotations.
 
 (* ---- Kafka batch clamp and commit offset ------------------------------------------------------------------ *)
 Lemma bridge_kb_clamp pos low high maxb reset : gen_kb_clamp pos low high maxb reset = kb_clamp pos low high maxb reset.
-Proof. reflexivity. Qed.
+Proof. unfold gen_kb_clamp, kb_clamp. zkernel. Qed.
 
 Lemma bridge_kb_commit hi : gen_kb_commit_offset hi = (hi + 1)%Z.
-Proof. reflexivity. Qed.
+Proof. unfold gen_kb_commit_offset. zkernel. Qed.
